@@ -473,7 +473,10 @@ def base_namespace():
     return {"__F__": sym.F, "__J__": sym.J, "__pyvc_snap__": snap, "__pyvc_map__": values.s_map,
             "__pyvc_dictcomp__": values.s_dictcomp,
             "__pyvc_range__": engine.RangeIter, "__pyvc_seq__": engine.SeqIter,
-            "__pyvc_loop__": _mkloop}
+            "__pyvc_loop__": _mkloop,
+            # numba.prange: a range whose iterations may run concurrently; under A4 (a kernel computes what its Python body
+            # computes) it is the sequential range of the builtins shim
+            "prange": values.shim_builtins()["range"]}
 
 
 def resolve_loop_selectors(modname, qualname, loop_specs):
